@@ -8,6 +8,11 @@ _MOR = "harness/c16_morph.cpp"
 # threshold_binary / threshold_truncate do not compile for float32 channels on the unchanged tree
 # (reported by the two probes below).  Once that is repaired, set this to True (or run with
 # C16_ENABLE_F32=1): it adds the float32 sweep (C16_PART=2 of c16_threshold.cpp) as a normal binary + run.
+# threshold_truncate does not instantiate when exactly one of source/destination has float32 channels; the two probes
+# would record that as C16|uninstantiable|threshold_truncate.{f32-to-u8,u8-to-f32}|...  They are OFF in the registered
+# configuration (a mixed float/integer truncate is nowhere promised and a compile error leaves nothing to monitor);
+# C16_MIXED_PROBES=1 switches them on.
+MIXED_PROBES = os.environ.get("C16_MIXED_PROBES", "0") == "1"
 ENABLE_F32 = os.environ.get("C16_ENABLE_F32", "1") == "1"
 
 _tus = [
@@ -22,6 +27,14 @@ _tus = [
     tu("c16_morph5", _MOR, "asan", extra=NONULL + ["-DC16_MPART=5"], deps=_DEPS),
     tu("c16_median_mixed", _MOR, "asan", extra=NONULL + ["-DC16_MPART=6"], deps=_DEPS),
     tu("c16_otsu_mixed", _THR, "asan", extra=NONULL + ["-DC16_PART=3"], deps=_DEPS),
+    # source and destination of different channel TYPES (oracle compares the exact source value with the threshold)
+    tu("c16_thr_narrow", _THR, "asan", extra=NONULL + ["-DC16_PART=4"], deps=_DEPS),
+    tu("c16_thr_sign", _THR, "asan", extra=NONULL + ["-DC16_PART=5"], deps=_DEPS),
+    tu("c16_thr_f32mix", _THR, "asan", extra=NONULL + ["-DC16_PART=6"], deps=_DEPS),
+    tu("c16_otsu_types", _THR, "asan", extra=NONULL + ["-DC16_PART=7"], deps=_DEPS),
+    tu("c16_thr_sign32", _THR, "asan", extra=NONULL + ["-DC16_PART=8"], deps=_DEPS),
+    tu("c16_probe_trunc_f32_u8", "harness/c16_probe_mixed.cpp", "asan", extra=["-DC16_PROBE=0"], probe="threshold_truncate.f32-to-u8"),
+    tu("c16_probe_trunc_u8_f32", "harness/c16_probe_mixed.cpp", "asan", extra=["-DC16_PROBE=1"], probe="threshold_truncate.u8-to-f32"),
     tu("c16_probe_f32_binary", "harness/c16_probe_f32.cpp", "asan", extra=["-DC16_PROBE=0"], probe="threshold_binary.f32"),
     tu("c16_probe_f32_truncate", "harness/c16_probe_f32.cpp", "asan", extra=["-DC16_PROBE=1"], probe="threshold_truncate.f32"),
 ]
@@ -36,11 +49,19 @@ _runs = [
     run("c16_morph4", shards=4, min_cases={"quick": 104, "thorough": 290}),
     run("c16_morph5", shards=4, min_cases={"quick": 104, "thorough": 290}),
     run("c16_median_mixed", shards=4, min_cases={"quick": 196, "thorough": 576}),
-    run("c16_otsu_mixed", shards=4, min_cases={"quick": 420, "thorough": 1800}, max_restarts=600),
+    run("c16_otsu_mixed", shards=4, min_cases={"quick": 420, "thorough": 1770}, max_restarts=600),
+    run("c16_thr_narrow", shards=8, min_cases={"quick": 216, "thorough": 486}),
+    run("c16_thr_sign", shards=6, min_cases={"quick": 252, "thorough": 567}),
+    run("c16_thr_f32mix", shards=4, min_cases={"quick": 144, "thorough": 324}),
+    run("c16_otsu_types", shards=4, min_cases={"quick": 876, "thorough": 3684}, max_restarts=600),
+    run("c16_thr_sign32", shards=4, min_cases={"quick": 144, "thorough": 324}),
 ]
 if ENABLE_F32:
     _tus.append(tu("c16_thr_f32", _THR, "asan", extra=NONULL + ["-DC16_PART=2"], deps=_DEPS))
     _runs.append(run("c16_thr_f32", shards=2, min_cases={"quick": 72, "thorough": 162}))
+
+if not MIXED_PROBES:
+    _tus = [t for t in _tus if not t["name"].startswith("c16_probe_trunc_")]
 
 CFG = dict(
     level="exploration",
@@ -75,14 +96,24 @@ CFG = dict(
                   "morphology shapes 0..7^2 (+0x0,0x3,3x0), SE sizes 1,3,5; median shapes 1..7^2, k 1,3,5; contents seeded"),
         "thorough": ("threshold shapes 0..8^2; Otsu shapes 1..6^2; morphology shapes ..12^2, SE sizes ..7; median shapes ..12^2, k ..7"),
     },
-    types=["threshold_binary/truncate: gray8, rgb8, rgb8->bgr8, gray16, rgb16, gray16s, rgb16s (gray32f/rgb32f: compile probes)",
+    types=["threshold_binary/truncate: gray8, rgb8, rgb8->bgr8, gray16, rgb16, gray16s, rgb16s, gray32f, rgb32f",
+           "threshold_binary/truncate with different source/destination channel types: u16->u8, u16->u8 (rgb->bgr), s16->u8, u32->u8, "
+           "s32->u8, s32->u16, s32->u32 (gray, rgb->bgr), u32->s32 (gray, rgb), s8->u8, u8->s8, s16->u16 (rgb), u16->s16, u8->u16, s8->u16, u8->s16 (rgb->bgr); threshold_binary only: "
+           "f32->u8 (gray, rgb->bgr), u8->f32, u16->f32 (threshold_truncate: compile probes)",
+           "threshold_optimal with different channel types: u16->u8 (gray, rgb->bgr), s16->u8, s8->u8, u8->s8, s16->u16, u16->s16, u8->u16, s8->u16, u8->f32",
            "threshold_optimal: gray/rgb x uint8, int8, uint16, int16",
            "dilate/erode/opening/closing/morphological_gradient: gray8, rgb8, gray8s, gray16, gray16s, gray32f (no gradient: does "
            "not instantiate) with detail::kernel_2d<float> structuring elements",
            "median_filter: gray8, rgb8, gray8s, gray16, gray16s, gray32f",
            "differing source/destination channel orders, judged per colour: rgb8->bgr8, bgr8->rgb8, rgba8->abgr8, planar rgb8->bgr8 "
            "for dilate/erode/opening/closing/gradient, median_filter and threshold_optimal (+ rgb16->bgr16 for Otsu)"],
-    assumptions=["channels of source and destination pair by colour, not by memory position, when their layouts differ "
+    assumptions=["with different source/destination channel types the comparison is made on the exact source value against the "
+                 "threshold (a value of the destination channel type), as documented; a truncate result meaning 'source value unchanged' "
+                 "is judged only when that value is representable in the destination type",
+                 "threshold_truncate with float32 channels on exactly one side (f32->u8, u8->f32) does not instantiate; that is nowhere "
+                 "promised, so it is not monitored (probe source harness/c16_probe_mixed.cpp kept, off unless C16_MIXED_PROBES=1); "
+                 "threshold_adaptive is not part of the property and is not run",
+                 "channels of source and destination pair by colour, not by memory position, when their layouts differ "
                  "(the functions only require compatible colour spaces)",
                  "preconditions respected: equal source/destination dimensions, odd median kernel sizes, non-empty sources for "
                  "median (edge replication), centred symmetric (transpose- and point-symmetric) 0/1 structuring elements",
